@@ -10,6 +10,8 @@ a boolean, unit of another dimension, assignment to a `!constant` node, declarat
 an undefined node - alone, after and before a valid modification.
 Placements: root; inside a group (indented); group + dotted-path modifications; group re-opened; DIP(env) chain.
 
+Integer nodes in cm / mm are modified with values (290, -290, 7000, 17000) whose conversion from mm / um is a whole number
+exactly but not in binary floating point.
 Not demanded (left out): `none` written with a unit as the FINAL assignment (as an intermediate assignment, in the same
 or another unit of the dimension, it is enumerated: the later assignments fully determine the result); a unit on a modification of a node defined without unit; integer
 nodes whose converted value is not integral; typed modifications spelling another width of the same type or other
@@ -37,8 +39,11 @@ ASSUMPTIONS = [
 ]
 
 NWIN = 26
-OTHER = {"m": ("cm", "km"), "cm": ("m", "[cu]"), "J": ("erg", "eV"), "[cu]": ("m", "km")}
-WRONG = {"m": "s", "cm": "J", "J": "m", "[cu]": "s"}
+OTHER = {"m": ("cm", "km"), "cm": ("mm", "[cu]"), "J": ("erg", "eV"), "[cu]": ("m", "km"), "mm": ("um", "cm")}
+WRONG = {"m": "s", "cm": "J", "J": "m", "[cu]": "s", "mm": "s"}
+# integer nodes defined in cm / mm get values whose conversion mm -> cm, um -> mm is a whole number exactly (selected by
+# the Fraction reference) but NOT in binary floating point (290 mm = 28.999999999999996 cm, 7000 um = 6.999999999999999 mm)
+INEXACT_UNITS = ("cm", "mm")
 
 
 # ------------------------------------------------------------------------------------------------ value alphabets
@@ -53,8 +58,13 @@ def _arr(texts, base):
     return G.lit("[" + ",".join(texts) + "]", vals, "array", exact=frs)
 
 
-def values(base, shape):
+def values(base, shape, unit=None):
     """modification values of a family: list of (tag, LIT)"""
+    if base == "int" and unit in INEXACT_UNITS:
+        if shape == "scalar":
+            return [("zero", _num("0", base)), ("negative", _num("-290", base)), ("positive", _num("7000", base))]
+        return [("zero", _arr(["0", "0"], base)), ("negative", _arr(["290", "-290"], base)),
+                ("positive", _arr(["7000", "17000"], base))]
     if base in ("int", "float"):
         pos = "7" if base == "int" else "7.5"
         if shape == "scalar":
@@ -102,6 +112,9 @@ def families():
                 fams.append((kw, unit, shape, "decl", None))
             fams.append((kw, unit, "scalar", "def", "falsy"))
             fams.append((kw, unit, "scalar", "def", "none"))
+    for shape in ("scalar", "array"):
+        fams.append(("int", "mm", shape, "def", "normal"))
+        fams.append(("int", "mm", shape, "decl", None))
     for kw in ("float32", "int64", "uint16"):
         fams.append((kw, "m", "scalar", "def", "normal"))
         fams.append((kw, None, "scalar", "decl", None))
@@ -119,7 +132,7 @@ def steps(fam, core=False):
     unit choice: 'omit' | 'same' | 'o1' | 'o2'"""
     kw, unit, shape, first, variant = fam
     base = G.TYPEINFO[kw][3]
-    tags = [t for t, _ in values(base, shape)]
+    tags = [t for t, _ in values(base, shape, unit)]
     out = []
     if core:
         vt = [tags[0], tags[-1]]
@@ -176,7 +189,7 @@ def bad_steps(fam):
             if okw != base:
                 out.append(("dtype-typed", okw + dims, G.lit(arr[okw][0], arr[okw][1], "array"), None))
     if unit:
-        vals = values(base, shape)
+        vals = values(base, shape, unit)
         for typed in (None, kw + (dims or "")):
             out.append(("dimension", typed, vals[0][1], WRONG[unit]))
             out.append(("dimension", typed, vals[2][1], WRONG[unit]))
@@ -191,7 +204,7 @@ def _mod_line(fam, step, name, d):
     kw, unit, shape, first, variant = fam
     typed, vtag, uc = step
     base = G.TYPEINFO[kw][3]
-    L = NONE if vtag == "none" else dict(values(base, shape))[vtag]
+    L = NONE if vtag == "none" else dict(values(base, shape, unit))[vtag]
     mu = None
     if uc == "same":
         mu = unit
@@ -530,8 +543,8 @@ def finish(total, tier, seed):
 
 MANIFEST = dict(
     text="Bounded exhaustive enumeration of definition/declaration + modification programs on the real parser against "
-         "a reference interpretation of the generating AST: 78 families (bool/int/float/str and sized variants x unit "
-         "none/m/cm/J/custom x scalar/[2] array x definition with normal/falsy/none value or declaration), every "
+         "a reference interpretation of the generating AST: 82 families (bool/int/float/str and sized variants x unit "
+         "none/m/cm/mm/J/custom x scalar/[2] array x definition with normal/falsy/none value or declaration), every "
          "sequence of 1-2 modifications (typed/untyped x 0/negative/positive/false/''/none x unit omitted/same/two "
          "other units; `none <unit>` only as an intermediate step), length 3 over a core alphabet for all families and over the full alphabet for the seed's window "
          "(1 of 26 windows, chosen by VERIF_SEED; thorough: all windows), five placements (root, group, dotted path, re-opened group, DIP(env) chain) and negative "
